@@ -214,6 +214,10 @@ impl<F: Float, D: Distance<F>, N: NearestNeighbour>
             self.set_core_distance(n, &neighbors, observations);
             if n.core_distance.is_some() {
                 seeds.clear();
+                // The point that opens a walk is listed first (with undefined reachability), so
+                // that every reachability set from it refers to a sample listed earlier
+                processed.insert(n.index);
+                result.orderings.push(n.clone());
                 // Here we get a list of "density reachable" samples that haven't been processed
                 // and sort them by reachability so we can process the closest ones first.
                 self.get_seeds(
